@@ -6,9 +6,63 @@ ALL = ["C%02d" % i for i in range(1, 21)]
 
 # id -> (level category, technique, level text, level note, design ref)
 CLAIMED = {
- "C01": ("exploration", "deterministic simulation: seeded lifecycle histories x 96 specs x hash keyings, lockstep reference model, failure-atomicity oracle, delta-debugged replay files",
-         "Seeded search over mutation histories (every GraphSpecs combination stratified, batches built to fail at a chosen element, names whose sort order differs from insertion order), each under 2 simulated hash keyings; after every operation the outcome kind, the full observable state and failure atomicity are compared with an independent reference model. A clean run is evidence over ~3e5 (quick) / 6e6 (thorough) histories, not a proof; the simulator contributes exact replay (explicit op list + keying), minimisation and hang containment.",
-         "Trusted: the reference model (DESIGN.md App. A), std/quick-xml/rand; bounds: <= 8 names, <= 40 ops.", "DESIGN.md §4 C01"),
+ "C01": ("exploration", "deterministic simulation: seeded lifecycle histories x 96 specs x hash keyings, lockstep reference model, failure-atomicity oracle (rejected call = injected fault, failing batch = torn write)",
+         "Seeded search over mutation histories (every GraphSpecs combination stratified, batches built to fail at a chosen element, names whose sort order differs from insertion order), each under 2 simulated hash keyings; after every operation the outcome kind, the full observable state and failure atomicity are compared with an independent reference model. Evidence over ~3e5 (quick) / 6e6 (thorough) histories, not a proof; the simulator contributes exact replay (explicit case + keying/schedule), delta-debugging minimisation, hang containment by the step clock and coverage accounting.",
+         "Trusted: the reference model (DESIGN.md App. A), std, rustc; bounds: <= 8 names, <= 40 ops.", "DESIGN.md §4 C01"),
+ "C02": ("exploration", "deterministic simulation: lifecycle histories under seeded hash keyings, every read API cross-checked after every step against the node list / edge multiset; hook white-box comparison of the 12 private indexes",
+         "After every step of seeded histories (all 96 specs, derived-graph ops included) every query is asked for every ordered pair of the name universe plus absent names, every node, random node sets, both adjacency maps and BFS, and compared with the answer derived from get_all_nodes/get_all_edges; with --cfg graphrs_verif the private indexes are compared with one another. Sampled (6e4 / 1.2e6 histories); the simulator contributes exact replay (explicit case + keying/schedule), delta-debugging minimisation, hang containment by the step clock and coverage accounting.",
+         "Trusted: the derivation of each API's expected answer (DESIGN.md App. B). Leniencies: hash-ordered results compared as multisets; a call wrong for two reasons may report either.", "DESIGN.md §4 C02"),
+ "C03": ("exploration", "deterministic simulation: histories biased to ignored / replaced / parallel duplicates, black-box Dijkstra + centralities vs an oracle built from get_all_edges(), hook white-box check of successors_vec / predecessors_vec",
+         "Seeded histories that add second edges with smaller / equal / larger weight under KeepFirst / KeepLast / multi-edge; after every step the hop-1 sets, weighted single-source distances, weighted closeness and betweenness equal the definitions evaluated on the real graph's own edge list, and (hook) the traversal lists hold exactly (neighbour, min stored weight). Sampled (8e4 / 1.5e6 histories); the simulator contributes exact replay (explicit case + keying/schedule), delta-debugging minimisation, hang containment by the step clock and coverage accounting.",
+         "Trusted: Floyd-Warshall oracle; weighted betweenness compared only under exactly summable weights.", "DESIGN.md §4 C03"),
+ "C04": ("exploration", "deterministic simulation: seeded graphs x simulated rayon pools (1-16 workers, seeded split tree / steals / leaf order) x hash keying, results vs Floyd-Warshall + path-count + explicit path enumeration oracle",
+         "single_source / multi_source / all_pairs on graphs of every kind (n <= 60) under simulated pools: reachable set, exact distances, path validity, number of paths = sigma(s,t), path set = enumeration for n <= 9. The simulator-specific dimension is thin here (schedule and keying are part of the replay file); most of the deciding power is the seeded workload plus the reference oracle. Sampled.",
+         "Trusted: the distance oracle. Path sets only under dyadic positive weights / hop counts.", "DESIGN.md §4 C04"),
+ "C05": ("exploration", "deterministic simulation: seeded graphs under simulated rayon pools and hash keyings, betweenness vs its definition from Floyd-Warshall distances and path counts",
+         "betweenness_centrality(weighted x normalized) on graphs of every kind (n <= 45) vs the definition at 1e-9, one entry per node; simulated pool of 1-16 workers above 20 nodes. Thin simulator dimension (schedule + keying in the replay file); sampled.",
+         "Trusted: the definition oracle; weighted runs use positive dyadic weights (exact ties).", "DESIGN.md §4 C05"),
+ "C06": ("exploration", "deterministic simulation: seeded graphs under simulated rayon pools and hash keyings, closeness vs its definition from incoming Floyd-Warshall distances",
+         "closeness_centrality(weighted x wf_improved) on graphs of every kind (n <= 50) vs the definition at 1e-9; simulated pool above 20 nodes. Thin simulator dimension; sampled.",
+         "Trusted: the definition oracle.", "DESIGN.md §4 C06"),
+ "C07": ("exploration", "deterministic simulation: seeded search over rayon schedules (simulated work-stealing scheduler patched in for rayon: pool size, split tree, steals, leaf order, caller-installed nested pools) with bit-exact comparison against the single-threaded run; plus real-rayon engines (native pools, concurrent readers; Miri seeded scheduler + race detector in the thorough tier)",
+         "The property the technique is for: for graphs of 21-60 nodes each of the five functions is evaluated with one worker and under 6-9 simulated schedules per case (2.1e4 schedules quick, 1e6 thorough); every key set, distance, path list and centrality must be bit-identical. Any violation found by the stub is a schedule real rayon can produce. Supporting engines run the real rayon: native pools of 1-16 threads with concurrent readers on one shared graph, and (thorough) Miri with seeded preemptive scheduling and data-race detection.",
+         "The stub executes whole closures; a data race inside two overlapping closures is invisible to it (graphrs has no unsafe / interior mutability: scanned every run). The native engine's schedule is not controlled (cross-check only).", "DESIGN.md §2.2, §4 C07"),
+ "C08": ("exploration", "deterministic simulation: metamorphic relations of the shortest-path entry points and options (implementation against itself), serial single_source vs simulated-parallel all_pairs / multi_source",
+         "all_pairs = multi_source = single_source; every combination of target x cutoff x first_only x with_paths restricts the unrestricted answer without changing values; fast path vs full algorithm; symmetry; triangle inequality; get_all_shortest_paths_involving. No oracle error possible (relations only). Thin simulator dimension (the parallel path runs under a simulated pool); sampled.",
+         "first_only path choice unspecified: only membership is required.", "DESIGN.md §4 C08"),
+ "C09": ("exploration", "deterministic simulation: lifecycle histories under seeded hash keyings, conservation identities (handshake, in+out, counts, density, adjacency matrix) monitored after every step",
+         "After every step of seeded histories over all 96 specs: number_of_nodes/edges, size, per-node and all-node degree variants, handshake identities, degree_centrality, density, sparse adjacency matrix by position vs the edge multiset of the real graph. Sampled (1.2e5 / 2.4e6 histories); the simulator contributes exact replay (explicit case + keying/schedule), delta-debugging minimisation, hang containment by the step clock and coverage accounting.",
+         "Weighted quantities at 1e-9.", "DESIGN.md §4 C09"),
+ "C10": ("exploration", "deterministic simulation: each graph analysed under 8-16 seeded hash keyings (the SCC routine's visit order follows HashSet iteration), partitions vs the Warshall closure",
+         "Component functions on graphs with nested SCCs, long cycles, many small components (n <= 40): set partitions equal to the closure classes, counts, node_connected_component, BFS, bfs_equal_size_partitions, WrongMethod on the other kind; H is the searched dimension (keying in the replay file). Sampled.",
+         "bfs_equal_size_partitions: only k parts, exact cover, size <= floor(n/k)+1.", "DESIGN.md §4 C10"),
+ "C11": ("exploration", "deterministic simulation: seeded single-edge graphs under several hash keyings (hash-ordered float sums), clustering family vs the definitions, subset consistency, kind refusal",
+         "clustering (undirected / Fagiolo / Onnela), average_clustering, triangles, transitivity, generalized_degree, square_clustering vs definitions at 1e-9, coefficients in [0,1], proper subsets, WrongMethod for multi-edge / directed. Thin simulator dimension; sampled.",
+         "Either max-weight convention accepted when a self-loop is heaviest.", "DESIGN.md §4 C11"),
+ "C12": ("exploration", "deterministic simulation: seeded graphs and mutated node-set families (incl. the cancelling duplicate+omission) under 2 hash keyings, is_partition / modularity vs the set definition and Newman's formula",
+         "is_partition vs the set-theoretic definition on partitions and 8 kinds of non-partition; modularity (weighted/unweighted, resolutions) vs Newman's formula from the stored edge list at 1e-9, NotAPartition otherwise. Thin simulator dimension; sampled.",
+         "Families with empty sets are partitions iff their non-empty sets are.", "DESIGN.md §4 C12"),
+ "C13": ("exploration", "deterministic simulation: Louvain under a logical step clock (allocation budget = bounded-liveness check, replayable because the count is a function of the seed) x 4-8 hash keyings x seeds; nestedness and modularity monotonicity vs the harness's own Newman formula",
+         "Every louvain call on graphs of all kinds (cycles, paths, stars, cliques, bipartite, unions; n <= 40) runs under a step budget: exceeding it is reported as non-termination with a replay file; Ok results are checked for partition, nesting, non-decreasing modularity, communities = last level. Termination cannot be proven by sampling; the budget makes it a bounded, replayable check.",
+         "Budget 3e5 + 3e4 (n+m) allocations; max observed / budget recorded in the evidence.", "DESIGN.md §2.3, §4 C13"),
+ "C14": ("exploration", "deterministic simulation: seeded graphs with adversarial Unicode names and f64 bit patterns, write -> read under 3-5 hash keyings (document edge order is hash order), string and file variants",
+         "Round trip of graphs of every kind: names in order, directedness, edge multiset with bit-identical weights, parallel-edge order, file = string document. Thin simulator dimension (keying); the file system is real and fault-free. Sampled (4e4 / 1e6 graphs).",
+         "Control characters excluded (as the property says).", "DESIGN.md §4 C14"),
+ "C15": ("exploration", "deterministic simulation: lifecycle histories in which derived-graph operations are applied at random points and the history continues on the result, lockstep model, source-unchanged and involution oracles",
+         "get_subgraph / reverse / set_all_edge_weights / to_single_edges on graphs produced by duplicate policies, re-added nodes and restarts: outcome, result vs the model's definition, result specs, source digest unchanged, reverse twice = identity, C02/C03 oracles on the result, C01 oracles on the continued history; 2 keyings. Sampled (1e5 / 2e6 histories); the simulator contributes exact replay (explicit case + keying/schedule), delta-debugging minimisation, hang containment by the step clock and coverage accounting.",
+         "Edge attributes of to_single_edges results unspecified; summed weights at 1e-9.", "DESIGN.md §4 C15"),
+ "C17": ("exploration", "deterministic simulation: the same seeded call replayed under 8-24 environments (hash keyings x simulated pool sizes), twice per thread, outputs compared; cross-process repetition via the determinism proof",
+         "The second property the technique is for: for a fixed (graph, arguments, Some(seed)) the environment is searched; Louvain results compared as lists of sets of sets, generator results as (nodes, edges), non-randomised algorithms exactly / at 1e-9. One recorded finding (rounding of hash-ordered sums on inexactly summable weights).",
+         "seed=None paths out of scope (raw-syscall entropy). Known finding listed in known_findings.json.", "DESIGN.md §4 C17"),
+ "C18": ("exploration", "deterministic simulation: seeded graphs under 4-8 hash keyings (the implementation sums in hash order), post-condition and fixed-point bound, reference iteration deciding certain / impossible / too-close convergence",
+         "Ok(x): one entry per node, non-negative, unit norm, one further step moves x by at most the tolerance-derived bound; exhaustion judged against a fixed-order reference iteration with a too-close band. Thin simulator dimension; sampled.",
+         "The fixed-point bound is derived from the stopping rule (sound, not tight).", "DESIGN.md §4 C18"),
+ "C19": ("fault_enumeration", "fault injection over stored bytes: exhaustive single-point corruptions (truncate / delete / duplicate / bit flip / byte replace) of fixed base documents + seeded multi-fault corruption of written and grammar-generated documents; totality under catch_unwind + step clock; Ok results validated by an independent quick-xml walk through the C01 model",
+         "Every case is one explicit corrupted document. The single-point sub-space over 4 base documents is enumerated exhaustively (~1.9e4 documents); the rest samples 0-4 faults on generated documents plus resource bombs. The call must return (no unwind, no worker death, within the step budget); a returned graph must contain exactly the document's node/edge elements subject to the specs and its declared directedness.",
+         "quick-xml is the trusted base for document structure; Err is always acceptable; namespace-prefixed documents only checked for totality.", "DESIGN.md §4 C19"),
+ "C20": ("exploration", "deterministic simulation: programs x inputs sweep - a registry of every public function over enumerated degenerate shapes x 8 kinds x weights, existing and absent names, under the panic monitor (overflow checks on) and the step clock, 2 hash keyings",
+         "Every public function that takes a graph is called on 12 degenerate shapes x 8 kinds x weighted/unweighted (enumerated) and on small random graphs, with every existing name and, where an error channel exists, an absent name: it must return; absent names and declared kind restrictions must use the error channel. Thin simulator dimension (hang containment + keying); the registry is maintained by hand and public functions it misses are listed in the evidence.",
+         "Error kinds are not judged, only that the channel is used.", "DESIGN.md §4 C20"),
 }
 
 NOT_YET = "check not built yet (work in progress this session; will be claimed once its check exists)"
@@ -57,6 +111,6 @@ def main():
     json.dump(m, open("/verif/MANIFEST.json", "w"), indent=1)
     print("MANIFEST.json: %d claimed, %d not applicable" % (len(checks), len(na)))
 
-HOOK_COMMITS = []
+HOOK_COMMITS = ["23fe853"]
 if __name__ == "__main__":
     main()
